@@ -8,26 +8,26 @@ V = Path(__file__).resolve().parent.parent
 props = [json.loads(l) for l in (V / 'properties.jsonl').read_text().splitlines() if l.strip()]
 
 INFO = {
- 'C01': ('Theorems over the flow interpreter model: effective-groups rule, run_step_groups characterised as the case split the property describes (main phase, success only after all ok, failure handler once, original error object returned, handler errors dropped, only Stop of the handler gives a quiet end), first non-ok ends a group/group list, root outcome. Tie: model vs real pypyr on directed straight-line pipelines with an independent oracle + random pipelines.', '4 C01'),
- 'C02': ('Theorems for every decorator stack, body, called groups, program, state and fuel: an instruction passes retry/swallow/foreach/while/invoke unchanged with the state of that moment (never retried, never swallowed, never recorded); every instruction a step returns originates in its body or called groups (origin theorem); stopstepgroup ends only its group, stoppipeline only its pipeline (also from a parser-failure handler), stop reaches the root, root reports success. Tie: signal kind x position x decorator subsets directed family with expectations from the property text + random pipelines, model vs real pypyr.', '4 C02'),
- 'C03': ('Theorems: counters and call/switch config restored after call for EVERY callee and every result; call resumes with the next step; jump abandons the rest of the group and runs the targets; switch takes the first true case or trailing default. Tie: clobber/switch/jump directed families + random call graphs, model vs real pypyr.', '4 C03'),
- 'C04': ('Theorems: truth rule closed form, body runs iff run and not skip at each iteration, swallow decided after the body, in-arguments visible/overriding/removed on normal completion for every body and loop combination. Tie: truth table over all value kinds x forms, per-iteration directed family, random pipelines.', '4 C04'),
- 'C05': ('Theorems: foreach once per item in order with first non-ok ending it, while counter sequence / count / sleeps / exhaustion closed forms for all max, nesting equation while>foreach>conditional>retry>invoke, unswallowed error ends all loops. Tie: loop-product directed family with closed-form expectations + random pipelines.', '4 C05'),
- 'C06': ('Theorems: retry attempt characterisation and closed forms (attempts, counters, n-1 sleeps, last error object), filters decision table, fixed-list closed form by induction on the deque, linear/exponential/cap, jitter bounds. Tie: exact-arithmetic comparison of the real back-off classes with the rational model + retry directed family with scripted failures + random pipelines.', '4 C06'),
- 'C07': ('Theorems: save_error entry contents, exactly one entry per unhandled error at the conditional layer, none for handled/ok/signals, retry records nothing, append-only through the layers. Tie: directed families (swallowed loops, retries, called groups depth 1-3 under swallow/retry, failing handlers) with expected entries + random pipelines + invariants on every runErrors seen.', '4 C07'),
- 'C08': ('Theorems over the faithful formatter model (parser, field lookup, conversions, specs, rf/ff, special tags): single expression keeps type, mixed is flat str, rf/ff, escapes, sic/py/jsonify, missing key is an error. Tie: grammar + malformed streams, model vs Context.get_formatted_value and str.format_map.', '4 C08'),
- 'C09': ('Theorems: container kinds/shape preserved, non-string leaves unchanged, brace-free identity and idempotence; heap-level model: existing cells never written, leaves by reference. Tie: nested values incl. ruamel maps, id()-graph and deep snapshots vs model.', '4 C09'),
- 'C10': ('Theorems by induction on the incoming tree: merge frame condition, per-kind merge table, lists extend with existing members first, defaults never overwrite (even None) and add exactly the missing. Tie: kind x kind directed table + random trees vs real Context.merge/set_defaults and the steps.', '4 C10'),
- 'C11': ('Theorems: pype argument defaults table, own-context isolation (only out keys change) for every child behaviour, result table (error/raiseError, Stop passes, StopPipeline ends only the child), pipeline stack balanced after every run-function (global fuel induction). Tie: parent/child/grandchild directed family over all endings x modes + random pipelines.', '4 C11'),
- 'C12': ('', '4 C12'),
- 'C13': ('Theorems for all schedules and any number of threads: mutual exclusion, single-flight, same object, failure not cached, clear refreshes, no_cache transparent, pipeline key injective (+ pre-fix collision witness), sys.path once. Tie: real cache classes driven by real threads under a deterministic scheduler following model schedules.', '4 C13'),
- 'C14': ('Theorems by induction on a binding-only mini-language: context read everywhere, eval frame (+ pre-fix walrus leak witness), exec frame = old + saved, imports beside context, in-place mutation visible. Tie: rendered programs through the real PyString/py/pyimport with provenance markers.', '4 C14'),
- 'C15': ('Theorems for every chunk count and fault point/kind: source always whole, raise leaves no temp (+ pre-fix leak witness), success keeps entries, kill leaves source whole, unmatched untouched. Tie: real rewriters with faults injected at every modelled point incl. process kill.', '4 C15'),
- 'C16': ('Theorems: fmtDoc maps every string node (keys too) and nothing else; write/fetch round-trip and fileformat document spec under an explicit codec hypothesis (RoundTrips d); JSON printer/parser pair modelled and exercised, its general round-trip theorem pending. Tie: generated payloads through the real filewrite/fetch/fileformat steps; YAML/TOML codecs validated by generation only.', '4 C16'),
- 'C17': ('Theorems for all command lists, exit codes and completion permutations: serial ok iff all zero, started = prefix to first non-zero, cmdOut per started command in order, async all started, sub-list prefix, results order-independent, aggregate error lists all failures. Tie: real subprocesses released in chosen completion orders.', '4 C17'),
- 'C18': ('Theorems: exit-code spec, argv pass-through, parser algebra for all argument lists (kvpairs first-= split and last duplicate wins, list order, string join, keys true, json as is), parse-input table. Tie: real parsers/get_args in-process + python -m pypyr subprocesses by way of termination.', '4 C18'),
- 'C19': ('Theorems: first existing candidate in the documented order for every existence predicate, absolute only, not-found lists searched, child-parent default table, sys.path has the pipeline dir. Tie: real directory layouts over all subsets x name forms x pype depth.', '4 C19'),
- 'C20': ('Theorems by induction over the file list: init order, scalar highest wins, dict union with precedence, unknown rejected atomically, non-mapping rejected (+ pre-fix witness), skip-init. Tie: fresh subprocess per configuration over all location subsets and env vars.', '4 C20'),
+ 'C01': ('Theorems over the flow interpreter model (all programs, states, fuel): defaulting rule, declaration order, first non-ok ends a list and where it came from, success only after all ok, run_step_groups characterised case by case (failure handler once, original error object returned, handler errors dropped incl. malformed handler groups, only a Stop of the handler gives a quiet end), root outcome. Static tie: semantic routing agreement of the extracted except ladders. Dynamic tie: straight-line and malformed-group families with expectations from the property text + random pipelines, model vs real pypyr; every third case is the second run of one Pipeline object.', '4 C01'),
+ 'C02': ('Theorems for every decorator stack, body, called groups, program, state and fuel: an instruction passes retry/swallow/foreach/while/invoke unchanged (never retried, swallowed or recorded), origin theorem (every instruction a step returns comes from its body or called groups), stopstepgroup ends only its group, stoppipeline only its pipeline (also from a parser-failure handler), stop reaches the root, root reports success. Static tie: routing agreement. Dynamic tie: signal kind x position (11 positions incl. parser-failure handler of a child and own-context child with out) x decorator subsets (11.8k directed) + random pipelines.', '4 C02'),
+ 'C03': ('Theorems: counters and call/switch config restored after a call for an ARBITRARY callee and every way it ends (side condition discharged for the real call/switch steps, instantiated with the real runGroups closure), call resumes, call under foreach for all n, jump abandons the rest and runs the targets, switch first-true/default/no-match + converses + error table. Tie: restore family over falsy foreach items x clobber modes x decorators x depth, mid-loop, switch and jump families + random call graphs.', '4 C03'),
+ 'C04': ('Theorems: truth rule closed form, body runs iff run and not skip at each iteration (foreach and while), swallow decided after the body, in-arguments visible/overriding/removed on normal completion for every body and loop combination, description only words the notification. Static tie: cast_to_bool TRANSLATED from the source and proved equal to the model. Dynamic tie: truth table over all value kinds x forms, per-iteration families incl. described steps, random pipelines.', '4 C04'),
+ 'C05': ('Theorems: foreach once per item in order with i bound, iterable evaluated once per loop entry, first non-ok ends it; while counter sequence / count / post-exec stop / sleeps between iterations / exhaustion closed forms for all max; nesting equation while>foreach>conditional>retry>invoke; unswallowed error ends all loops. Tie: loop-product and literal-items families with closed-form expectations + random pipelines.', '4 C05'),
+ 'C06': ('Theorems: retry attempt characterisation and closed forms (attempts, counters, n-1 sleeps, last error object), filters decision table, fixed-list closed form by induction on the deque, linear/exponential/cap, jitter bounds. Static tie: all six strategy classes, min, randomize and builtin_backoffs TRANSLATED from pypyr/retries.py and proved equal to the model. Dynamic tie: exact-arithmetic comparison of the real classes with the rational model, scripted-failure and retry re-entry families, random pipelines.', '4 C06'),
+ 'C07': ('Theorems: save_error entry contents incl. 0-based to 1-based line/col, exactly one entry per unhandled error at the conditional layer, none for handled/ok/signals, retry and loops record nothing, called errors not recorded again, append-only through every layer and for whole runs (fuel induction). Static tie: get_error_name TRANSLATED. Dynamic tie: 33 base cases x 13 yaml layouts with expected entries + random pipelines + invariants on every runErrors seen.', '4 C07'),
+ 'C08': ("Theorems over the faithful formatter model (CPython's format-string parser incl. malformed input, field lookup, conversions, specs, rf/ff, special tags): single expression keeps type, mixed is flat str, rf/ff, escapes, sic/py/jsonify, missing key is an error, refinement to a short spec; session theorems (a := stays inside its evaluation, earlier calls do not matter). Tie: grammar + malformed streams vs Context.get_formatted_value and str.format_map; sessions of several calls on one Context judged against plain Python eval.", '4 C08'),
+ 'C09': ('Theorems: container kinds/shape preserved, non-string leaves unchanged, brace-free identity and idempotence; heap-level model: existing cells never written, leaves by reference, sharing through the memo. Tie: nested values incl. ruamel maps, position-wise identity monitor, deep snapshots with key order and identities, equal-but-distinct hashable siblings, implementation-only !py stream. One open known finding (containers whose constructor does not take one iterable).', '4 C09'),
+ 'C10': ('Theorems by induction on the incoming tree: merge frame condition, per-kind merge table, lists extend with existing members first, defaults never overwrite (even None) and add only missing paths, the steps equal the Context methods. Tie: kind x kind table + random trees vs real Context.merge/set_defaults and the steps. Three open known findings (aliasing).', '4 C10'),
+ 'C11': ('Theorems: pype argument defaults table, own-context isolation for an arbitrary child (frame for every key not in out, exact context on every outcome), shared context, result table (error/raiseError, Stop passes, StopPipeline never leaves a pipeline), child error after its failure handler, pipeline stack balanced after every run-function (global fuel induction), parent is current again. Tie: parent/child/grandchild family over all endings x modes + random pipelines.', '4 C11'),
+ 'C12': ("Theorems over the heap model (regions definition/config/run): separation invariant preserved by every operation of the code as it is and any schedule, definitions/config arenas unchanged (deep-equal to the loader's), every op-granular interleaving gives each run its solo result, re-run after any history equals the first run; pre-fix counter-examples. Tie: id()-reachability of shared objects from the context after every real step vs the model, history monitor, order-independence stream, real threads parked at probe steps. Partial: sub-step interleavings not modelled.", '4 C12'),
+ 'C13': ('Theorems for all schedules and any number of threads: mutual exclusion, refinement to the atomic get-or-create spec, single-flight, same object, failure not cached, clear refreshes, no_cache transparent, pipeline key injective (+ pre-fix collision witness), sys.path once. Tie: real cache classes driven by real threads under a deterministic scheduler following model schedules. Partial: atomicity of dict operations and of the lock assumed.', '4 C13'),
+ 'C14': ("Theorems over a binding-only model of eval/exec namespaces: the whole state except the heap survives an evaluation, one namespace in every scope (own bindings, context, imports, builtins), a := shadows everywhere and never reaches context, exec frame = old + explicitly saved, imports beside context, rehydration invisible, in-place mutation visible; pre-fix witnesses. Tie: rendered sessions through the real PyString/py/pyimport with provenance markers, M1-M6 monitors. Partial: CPython's scoping rules are validated by the correspondence only.", '4 C14'),
+ 'C15': ("Theorems for every chunk count and fault point/kind: source always whole, raise leaves no temp (+ pre-fix leak witness), success keeps entries, kill leaves source whole, unmatched untouched, multi-file; same-file-ness is inode identity over a link table (every alias of in routes in place and is all-or-nothing, another file's out never touches in). Tie: real rewriters with faults injected at every modelled point incl. process kill, 20 aliasing forms. Partial: atomicity of os.replace is the OS's.", '4 C15'),
+ 'C16': ("Theorems: fmtDoc maps every string node (keys too) and nothing else; write/fetch round-trip and fileformat document spec under an explicit codec hypothesis, DISCHARGED for JSON by a proved printer/parser round-trip (parse (print d) = d for every float-free document). Tie: generated payloads through the real filewrite/fetch/fileformat steps and file parsers. Partial: YAML/TOML codecs validated by generation only; two open known findings are ruamel's.", '4 C16'),
+ 'C17': ('Theorems for all command lists, exit codes (0, positive, signal) and unstartable commands, all completion orders: serial ok iff all zero, started = prefix to first failure, cmdOut one result per command run in order, async all started, sub-list prefix, results order-independent, aggregate error lists all failures. Tie: real subprocesses released in chosen completion orders, self-killing children, missing/non-executable/unquotable commands, marker files.', '4 C17'),
+ 'C18': ('Theorems: exit-code spec for a fault in ANY phase of cli.main (config, logging, run), trichotomy 0/130/255, main never escapes, argv pass-through, parse-input table; the extracted shape of cli.main (calls inside the try, handler ladder, text written) proved to be what the model assumes; six argument parsers TRANSLATED from the source and proved equal to the model. Tie: in-process phase ladder + python -m pypyr subprocesses with natural and injected faults per phase and per source line.', '4 C18'),
+ 'C19': ('Theorems: first existing candidate in the documented order for every existence predicate, absolute only, not-found lists the places searched, child-parent default table, sys.path has the pipeline dir. Tie: real directory layouts over all subsets x name forms x pype depth.', '4 C19'),
+ 'C20': ("Theorems by induction over the file list: init order, scalar highest wins, dict union with precedence, unknown rejected atomically, non-mapping rejected (+ pre-fix witness), skip-init; extracted config property sets proved equal to the model's. Tie: a fresh subprocess per configuration over all location subsets and env vars.", '4 C20'),
 }
 
 claimed = [a.upper() for a in sys.argv[1:]]
@@ -44,7 +44,7 @@ for p in props:
         'evidence_file': f'evidence/{pid}.json',
         'replay_cmd_template': f'./check {pid} --replay {{path}}',
         'engine': 'lean-model+correspondence',
-        'level_claimed': {'category': 'proof', 'text': text, 'design_ref': 'DESIGN.md section ' + ref},
+        'level_claimed': {'category': 'proof', 'text': text, 'design_ref': 'DESIGN.md sections ' + ref + ' and 11.2'},
         'level_note': ('Trusted: Lean 4.33 kernel (axioms per theorem audited on every run: subset of propext, '
                        'Classical.choice, Quot.sound; no sorry/native_decide); the hand-written model is tied to the '
                        'code by the correspondence harness only (generators, canonicaliser, probes - listed in the '
@@ -64,7 +64,7 @@ m = {
  'engines': [{'name': 'lean-model+correspondence', 'path': 'check', 'serves_properties': claimed,
               'kind_free_text': 'Lean 4 theorems over hand-written executable models (lean/PypyrModel, lean/Props) + differential correspondence harness (harness/) driving model (pmdriver) and implementation on the same inputs'}],
  'checks': checks,
- 'notes': 'Technique family: machine-checked proof in Lean 4. See DESIGN.md. Genuine defects F1-F8 repaired as fix: commits in /repo; see known_findings.json.',
+ 'notes': 'Technique family: machine-checked proof in Lean 4. See DESIGN.md (sections 11-13: as built, defects and false alarms, seeded changes). Genuine defects repaired as fix: commits in /repo and open findings: known_findings.json.',
  'not_applicable': na,
 }
 (V / 'MANIFEST.json').write_text(json.dumps(m, indent=1) + '\n')
